@@ -382,6 +382,34 @@ func nodeResetCoversTables(p *Prog, r *Reporter) {
 			r.Bad(p.FuncName(fn), construct, p.Pos(posOf(h.Instrs[len(h.Instrs)-1])), "an iteration can reach the next one (back edge at "+bad+") without resetting or retiring its table although the table may be active: its entities survive World.Reset as rows without a live handle")
 		}
 	}
+	// the same loop body written as a per-table visitor: a closure of Reset that takes the table and contains the effect
+	for _, cl := range fn.AnonFuncs {
+		takesTable := false
+		for _, pr := range cl.Params {
+			if typeName(pr.Type()) == "archetype" {
+				takesTable = true
+			}
+		}
+		has := false
+		for _, b := range cl.Blocks {
+			for _, ins := range b.Instrs {
+				if effect(ins) {
+					has = true
+				}
+			}
+		}
+		if !takesTable || !has {
+			continue
+		}
+		n++
+		mf := &MustFlow{Fn: cl, InstrGen: effect, EdgeGen: inactive}
+		mf.Run()
+		if mf.AtAllReturns() {
+			r.OK(p.FuncName(cl), "per-table visitor", p.Pos(cl.Pos()), "every call resets or retires its table, or the table is known inactive")
+		} else {
+			r.Bad(p.FuncName(cl), "per-table visitor", p.Pos(cl.Pos()), "the per-table callback can return without resetting or retiring its table although the table may be active: its entities survive World.Reset as rows without a live handle")
+		}
+	}
 	if n == 0 {
 		r.Anchor("archNode.Reset: a loop that resets or retires tables")
 	}
@@ -487,10 +515,23 @@ func registryKeyIsParam(p *Prog, r *Reporter) {
 // exclusiveFromInclude: in the generic filter's Compile, the mask whose complement becomes the exclusion of an exclusive
 // filter is the very mask that is stored as the filter's inclusion.
 func exclusiveFromInclude(p *Prog, r *Reporter) {
-	fn := p.Fn("generic.(*compiledQuery).Compile")
-	if fn == nil {
+	top := p.Fn("generic.(*compiledQuery).Compile")
+	if top == nil {
 		r.Anchor("generic.(*compiledQuery).Compile")
 		return
+	}
+	// the function (Compile or a helper it calls) that stores MaskFilter.Include
+	fn := top
+	for _, g := range withHelpers(p, top, 2) {
+		for _, b := range g.Blocks {
+			for _, ins := range b.Instrs {
+				if st, ok := ins.(*ssa.Store); ok {
+					if fa, ok := st.Addr.(*ssa.FieldAddr); ok && typeName(fa.X.Type()) == "MaskFilter" && fieldName(fa.X.Type(), fa.Field) == "Include" {
+						fn = g
+					}
+				}
+			}
+		}
 	}
 	// the value stored as MaskFilter.Include
 	var incl ssa.Value
